@@ -565,6 +565,8 @@ class _Q(ast.NodeVisitor):
             return Series(list(self.df.index._vals), index=self.df.index.copy())
         if n.id.startswith("__at__"):
             return self.env[n.id[6:]]
+        if n.id.startswith("__symval_") and n.id in E.SYMTOKENS:
+            return E.SYMTOKENS[n.id]
         if n.id in ("True", "False"):
             return n.id == "True"
         raise KeyError(f"name {n.id!r} is not defined")
